@@ -66,7 +66,7 @@ def parse_reports(text):
     return out
 
 
-def run_blocks(binp, blocks, wd, name, timeout=240):
+def run_blocks(binp, blocks, wd, name, timeout=900):
     pp = os.path.join(wd, name + ".prog")
     with open(pp, "w") as f:
         for b in blocks:
@@ -133,7 +133,7 @@ def check(tier):
 
     # (c) sensor: ThreadSanitizer, every unordered pair of public methods
     binp = build("tsan", "conc")
-    calls = 250 if tier == "quick" else 1500
+    calls = 250 if tier == "quick" else 6000
     jobs = []
     npairs = 0
     for kind in KINDS:
@@ -144,7 +144,7 @@ def check(tier):
                 blocks.append(((a, b), pair_block(kind, a, b, seed + npairs, calls)))
                 npairs += 1
         # split per kind into a few processes
-        n = 3 if tier == "quick" else 6
+        n = 3 if tier == "quick" else 8
         for j in range(n):
             part = blocks[j::n]
             if part:
